@@ -40,6 +40,9 @@ def oracle(ctx, st, ob):
     ops = []
     for o in ob['ops']:
         ops.append(([[o.matrix[i, j] for j in range(3)] for i in range(3)], [float(t) for t in o.trans]))
+    # the reference distances are taken over the operators of the space group as constructed (exact table), so that an operator the
+    # library failed to generate shows up here as a distance that is too long
+    exact = [([[float(v) for v in row] for row in o[0]], [float(t) for t in o[1]]) for o in exact_ops(st)]
     items = {(a1, a2): (d, n, c) for a1, a2, d, n, c in ob['items']}
     n = len(atoms)
     ev = 0
@@ -51,7 +54,7 @@ def oracle(ctx, st, ob):
     for i in range(n):
         for j in range(n):
             xi, xj = [atoms[i].x, atoms[i].y, atoms[i].z], [atoms[j].x, atoms[j].y, atoms[j].z]
-            d, nop = sc.true_min(G, ops, xi, xj)
+            d, nop = sc.true_min(G, exact, xi, xj)
             ev += 1
             it = items.get((i, j))
             if it is not None and it[2]:
@@ -81,7 +84,7 @@ def oracle(ctx, st, ob):
                 a1, a2 = atoms[i], atoms[j]
                 p1, p2 = a1.part.n, a2.part.n
                 allowed = (p1 == p2) or ((p1 == 0 or p2 == 0) and not (a1.ishydrogen or a2.ishydrogen))
-                lim = 1.2 * (a1.radius + a2.radius)
+                lim = 1.2 * (gs.radius(a1.element) + gs.radius(a2.element))       # by element symbol from the table, not through the atom object
                 want = allowed and it[0] < lim
                 if abs(it[0] - lim) > 1e-6 and bool(it[2]) != want:
                     common.add_violation(ctx, 'bonded label differs from the bonding rule (1.2 x radii, PART and hydrogen rules)',
@@ -98,6 +101,46 @@ def oracle(ctx, st, ob):
                                      dict(case, atoms=[atoms[i].name, atoms[j].name], molindex=[mol[i], mol[j]]),
                                      'same component' if same_c else 'different components', 'same number' if same_m else 'different numbers')
     return ev
+
+
+def resdm(ctx, st):
+    """the matrix built again after an edit on the same object (an element changed) is the matrix of a fresh object reading the edited
+    file: no radius, distance or bond flag of the earlier matrix survives"""
+    import contextlib, io
+    import impl_model as im
+    from shelxfile.shelx.shelx import Shelxfile
+    from shelxfile.shelx.sdm import SDM
+    text = gs.to_text(st)
+    shx = Shelxfile()
+
+    def table(s):
+        with contextlib.redirect_stdout(io.StringIO()):
+            sdm = SDM(s)
+            sdm.calc_sdm()
+        return (sorted((it.a1, it.a2, round(it.dist, 6), bool(it.covalent)) for it in sdm.sdm_list), [a.molindex for a in s.atoms.all_atoms])
+    with contextlib.redirect_stdout(io.StringIO()):
+        shx.read_string(text)
+    table(shx)
+    real = [a for a in shx.atoms.all_atoms if not a.qpeak]
+    if not real:
+        return 0
+    victim = ctx.rng.choice(real)
+    new = ctx.rng.choice([e for e in gs.ELEMENTS if e.upper() != victim.element.upper()])
+    with contextlib.redirect_stdout(io.StringIO()):
+        victim.element = new
+    edited = table(shx)
+    fresh = Shelxfile()
+    with contextlib.redirect_stdout(io.StringIO()):
+        fresh.read_string(im.write_text(shx))
+    ref = table(fresh)
+    if edited[0] != ref[0]:
+        diff = [x for x in edited[0] if x not in ref[0]][:3]
+        common.add_violation(ctx, 'the distance matrix built after changing an element differs from the matrix of a fresh object reading the edited file',
+                             {'text': text, 'atom': victim.name, 'new_element': new}, str([x for x in ref[0] if x not in edited[0]][:3]), str(diff))
+    elif [[i for i, m in enumerate(edited[1]) if m == k] for k in sorted(set(edited[1]))] != [[i for i, m in enumerate(ref[1]) if m == k] for k in sorted(set(ref[1]))]:
+        common.add_violation(ctx, 'molecule numbers after changing an element differ from those of a fresh object reading the edited file',
+                             {'text': text, 'atom': victim.name, 'new_element': new}, ref[1], edited[1])
+    return 1
 
 
 def run(ctx):
@@ -117,6 +160,8 @@ def run(ctx):
             common.add_violation(ctx, 'calc_sdm / packer raised on a valid structure', {'name': st['name'], 'text': gs.to_text(st)}, 'no exception', repr(ex))
             continue
         ev += oracle(ctx, st, ob)
+        if k % 4 == 0:
+            ev += resdm(ctx, st)
         mc = sc.metric_constants_ok(ob)
         if mc and not any('metric constants' in x for x in ctx.broken):
             ctx.broken.append('correspondence: metric constants of the SDM object differ from the cell: ' + mc)
